@@ -172,6 +172,12 @@ func runC10(w *World) *Result {
 	r.Rule("R-C10-prefix", "imported names are kept apart by a prefix that is a digest of the whole file content, so behaviour does not depend on which names two imported files share", 1)
 	PrefixDigestRule(w, r, "R-C10-prefix", nil)
 	c09PrefixApplied(w, r, "R-C10-prefix")
+	r.Rule("R-C10-frame", "the local names of different functions are kept apart by the emitter, so behaviour does not depend on two functions choosing the same local name", 2)
+	for _, role := range []string{"bash", "batch"} {
+		if b, err := BuildBackend(w, role); err == nil {
+			FrameRule(w, b, r, "R-C10-frame")
+		}
+	}
 	identRe, kw, err := LexerIdentifierLanguage(w)
 	if err != nil {
 		r.Bad("R-C10-names", "lexer:identifier-language", "-", err.Error())
